@@ -575,6 +575,15 @@ class Env:
         finally:
             _Obs.crash_at = None
 
+    def maintenance(self):
+        """what the processor loop does between deliveries besides polling: the retention sweep of stage claims.  Not a
+        modelled step: for a live workflow it must change nothing (its commit, if any, is not counted)."""
+        _Obs.enabled = False
+        try:
+            self.store.cleanup_completed_stage_claims()
+        finally:
+            _Obs.enabled = True
+
     def cancel(self):
         from stabilize import Orchestrator
         wf = self.store.retrieve(self.wf_id)
